@@ -150,6 +150,8 @@ package metadatapart
 //@ loop 0 invariant 0 <= iter__ && iter__ <= len(range__) && len(sharedPartIDs) == specCountInStore(range__, iter__, dstStoreName)
 //@ effect[C08:one-reference-per-shared-part-row] every mbs.metadataStore.TryAddPartReferences(_, _, $ids) if same($ids, sharedPartIDs)
 //@     where len($ids) == specCountInStore(srcObject.Parts, len(srcObject.Parts), dstStoreName)
+//@ effect[C01:copy-keeps-source-and-destination-readable] every mbs.metadataStore.TryAddPartReferences(_, _, $ids) if same($ids, sharedPartIDs)
+//@     where len($ids) == specCountInStore(srcObject.Parts, len(srcObject.Parts), dstStoreName)
 //@ effect[C08:nothing-recorded-when-the-references-were-refused] every mbs.metadataStore.TryAddPartReferences(_, _, $ids) -> ($ok, $e) if !$ok || $e != nil
 //@     forbids after mbs.metadataStore.PutObject(_, _, _, _, _)
 
